@@ -125,6 +125,23 @@ def r20_2(repo: Repo) -> RuleResult:
     tr = repo.resolve_method(c, "transform")
     vt = repo.resolve_method(c, "_vector_transform")
     loops = [n for n in walk_no_nested(tr.node) if isinstance(n, ast.For)]
+    if not loops:
+        # a vectorised transform (all values cut at once, counted through flat positions row * n_bins + code): the
+        # clause that remains checkable is the one about the no-bin code
+        codes = [x for x in walk_no_nested(tr.node) if isinstance(x, ast.Attribute) and x.attr == "codes"]
+        if not codes:
+            raise AnalysisError("R20.2: HistogramVectorizer.transform has neither a row loop nor a code-based count")
+        filtered = any(isinstance(x, ast.Compare) and len(x.ops) == 1 and (
+            (isinstance(x.ops[0], ast.GtE) and norm(x.comparators[0]) == "0") or (isinstance(x.ops[0], ast.Gt) and norm(x.comparators[0]) == "-1")
+            or (isinstance(x.ops[0], ast.NotEq) and norm(x.comparators[0]) == "-1")) for x in walk_no_nested(tr.node))
+        if filtered:
+            rr.ok(tr, "counting", "flat positions built from bin codes after the no-bin code -1 is filtered out", tr.node.lineno)
+        else:
+            rr.bad(tr, "counting", "flat positions `row * n_bins + code` are built from pd.cut's codes without removing the code -1 of values that fall "
+                   "in no bin: such a value is counted in the last bin of the *previous* row (or raises for the first row), so a row depends on "
+                   "its neighbours", tr.node.lineno)
+        rr.floor = 1
+        return rr
     if len(loops) != 1 or not (isinstance(loops[0].iter, ast.Call) and norm(loops[0].iter.func) == "enumerate" and isinstance(loops[0].target, ast.Tuple)):
         raise AnalysisError("R20.2: row loop of HistogramVectorizer.transform not recognised")
     i, seq = (norm(x) for x in loops[0].target.elts)
